@@ -31,21 +31,35 @@ def run(R):
     diffs = compare(R, ops, il, ml, lambda op, a, b: CS.proj_crypt(op, a, b) if op.startswith("C ") else None, "first hash")
     # second round: for every success, re-hash with H and with H whose hash portion is replaced
     ops2, meta2, want = [], [], []
+    unterminated = []
+    starts2 = []
     for op, m, line in zip(ops, meta, il):
         f = fields(line)
         if not op.startswith("C ") or f.get("ret") == "NULL" or f.get("out", "2a").startswith("2a"): continue
+        if f.get("out") == "unterminated":
+            unterminated.append((op, "a successful call left no NUL-terminated string in the output field", line)); continue
         H = unhx(f["out"]); ph = op.split(" ")[3]
         n = hash_part_len(m[0], H)
+        starts2.append(len(ops2))
         ops2.append("C rn 0 %s %s" % (ph, hx(H))); meta2.append((m[0], "rehash:" + m[1], m[2], len(H))); want.append(H)
+        if m[1] == "first-call-on-filled-object":
+            # the verifying call on an object that holds a longer earlier result / that the application filled (seeded/C01f: the end of the
+            # result string came from what the object held before)
+            for pre in ("C rn 0 7077 %s" % hx(S.CANON["sha512crypt"]), "O 0 f 3 1", "O 0 r 5 %d" % R.rng.randrange(1 << 30)):
+                starts2.append(len(ops2))
+                ops2.append(pre); meta2.append(("setup", "obj", 0, 0)); want.append(None)
+                ops2.append("C rn 0 %s %s" % (ph, hx(H))); meta2.append((m[0], "rehash-on-used-object:" + m[1], m[2], len(H))); want.append(H)
         sub = H[:len(H) - n] + S.rs(R.rng, alphabet_for(m[0]), n)
+        starts2.append(len(ops2))
         ops2.append("C rn 0 %s %s" % (ph, hx(sub))); meta2.append((m[0], "hashpart-replaced:" + m[1], m[2], len(H))); want.append(H)
-    ops2b, meta2b, il2, ml2 = CS.run_budgeted(R, ops2, meta2, group_starts=list(range(len(ops2))))
-    wantmap = dict(zip(ops2, want))
-    diffs += compare(R, ops2b, il2, ml2, CS.proj_crypt, "re-hash")
-    bad = []
+    ops2b, meta2b, il2, ml2 = CS.run_budgeted(R, ops2, meta2, group_starts=starts2)
+    wantmap = {o: w for o, w in zip(ops2, want) if w is not None}
+    diffs += compare(R, ops2b, il2, ml2, lambda op, a, b: CS.proj_crypt(op, a, b) if op.startswith("C ") and op in wantmap else None, "re-hash")
+    bad = list(unterminated)
     for op, m, line in zip(ops2b, meta2b, il2):
+        if m[0] == "setup" or op not in wantmap: continue
         f = fields(line); H = wantmap[op]
-        got = None if f.get("ret") == "NULL" else unhx(f.get("out"))
+        got = None if f.get("ret") == "NULL" else (f.get("out").encode() if f.get("out") == "unterminated" else unhx(f.get("out")))
         if got != H:
             what = "re-hashing with the produced hash" if m[1].startswith("rehash") else "replacing the hash portion of the setting by other same-length alphabet text"
             bad.append((op, "%s does not reproduce the hash: got %r (errno %s), stored %r" % (what, got, f.get("errno"), H), line))
